@@ -102,20 +102,48 @@ fn units<'a>(sect: &str, sec: &'a [u8], e: RunTimeEndian) -> (Vec<UnitHeader<R<'
     (out, end)
 }
 
+/// `info` / `types`, optionally `@k`: the k-th (0-based) unit of the section
+fn split_sect(tok: &str) -> Option<(&str, usize)> {
+    match tok.split_once('@') {
+        None => Some((tok, 0)),
+        Some((s, k)) => Some((s, k.parse().ok()?)),
+    }
+}
+
+/// the unit selected by the section token (`units()` iteration) and its abbreviations
 pub fn first_unit<'a>(sect: &str, sec: &'a [u8], abbrev: &'a [u8], e: RunTimeEndian) -> gimli::Result<(UnitHeader<R<'a>>, Abbreviations)> {
+    let eof = || gimli::Error::UnexpectedEof(gimli::ReaderOffsetId(0));
+    let (sect, k) = split_sect(sect).ok_or_else(eof)?;
     let h = if sect == "types" {
-        match DebugTypes::new(sec, e).units().next()? {
-            Some(h) => h,
-            None => return Err(gimli::Error::UnexpectedEof(gimli::ReaderOffsetId(0))),
+        let mut it = DebugTypes::new(sec, e).units();
+        let mut h = it.next()?.ok_or_else(eof)?;
+        for _ in 0..k {
+            h = it.next()?.ok_or_else(eof)?;
         }
+        h
     } else {
-        match DebugInfo::new(sec, e).units().next()? {
-            Some(h) => h,
-            None => return Err(gimli::Error::UnexpectedEof(gimli::ReaderOffsetId(0))),
+        let mut it = DebugInfo::new(sec, e).units();
+        let mut h = it.next()?.ok_or_else(eof)?;
+        for _ in 0..k {
+            h = it.next()?.ok_or_else(eof)?;
         }
+        h
     };
     let abbrevs = DebugAbbrev::new(abbrev, e).abbreviations(DebugAbbrevOffset(h.debug_abbrev_offset().0))?;
     Ok((h, abbrevs))
+}
+
+/// `header_from_offset` at the unit's own section offset must give the same header
+fn header_from_offset_agrees<'a>(sect: &str, sec: &'a [u8], e: RunTimeEndian, h: &UnitHeader<R<'a>>) -> bool {
+    if sect.starts_with("types") {
+        return true;
+    }
+    match h.offset() {
+        gimli::UnitSectionOffset(o) => match DebugInfo::new(sec, e).header_from_offset(gimli::DebugInfoOffset(o)) {
+            Ok(h2) => h2 == *h,
+            Err(_) => false,
+        },
+    }
 }
 
 fn walk_sib<'a>(c: &mut EntriesCursor<'_, R<'a>>, out: &mut Vec<Item>, steps: &mut usize) -> gimli::Result<()> {
@@ -407,6 +435,9 @@ pub fn handle(op: &str, a: &[&str]) -> Option<String> {
             match navigate(style, &hd, &abbrevs, start) {
                 Ok((items, end)) => {
                     let mut oracle = None;
+                    if !header_from_offset_agrees(sect, &sec, e, &hd) {
+                        oracle = Some("header_from_offset differs from units() iteration".to_string());
+                    }
                     if let Some(ex) = exp.as_ref().and_then(|ex| expected(style, ex, start)) {
                         if ex.0 != items || ex.1 != end {
                             // first difference
@@ -617,7 +648,9 @@ fn gen_attrs(rng: &mut Rng, with_sibling: bool) -> Vec<(u16, u16, i64)> {
         })
         .collect();
     if with_sibling {
-        let form = *rng.pick(&[0x13u16, 0x13, 0x13, 0x11, 0x12, 0x14, 0x15]);
+        // DW_FORM_ref_addr (0x10) is a legal form for DW_AT_sibling too; it is a section offset, which the
+        // fast path must not take for a unit offset (gimli ignores it and reads through the subtree)
+        let form = *rng.pick(&[0x13u16, 0x13, 0x13, 0x11, 0x12, 0x14, 0x15, 0x10, 0x10]);
         let pos = match rng.below(3) {
             0 => 0,
             1 => v.len(),
@@ -669,8 +702,9 @@ struct Layout {
     ends: Vec<usize>,
 }
 
-fn sib_size(form: u16) -> usize {
+fn sib_size(c: &Cfg, form: u16) -> usize {
     match form {
+        0x10 => if c.ver == 2 { c.addr as usize } else { c.word() },
         0x11 => 1,
         0x12 => 2,
         0x13 => 4,
@@ -690,7 +724,7 @@ fn emit_nodes(rng: &mut Rng, c: &Cfg, decls: &[Decl], nodes: &[Node], depth: isi
         for &(name, form, imp) in &d.attrs {
             if name == SIBLING {
                 l.patches.push((l.bytes.len(), form, end_ix));
-                l.bytes.extend(std::iter::repeat(0).take(sib_size(form)));
+                l.bytes.extend(std::iter::repeat(0).take(sib_size(c, form)));
             } else {
                 let (b, _) = encode_form(rng, c, form, imp, 0)?;
                 l.bytes.extend(b);
@@ -713,7 +747,10 @@ struct UnitCase {
     abbrev: Vec<u8>,
     section: Vec<u8>,
     items: Vec<Item>,
-    header: String,
+    /// canonical text of every unit header of the section, in order
+    headers: Vec<String>,
+    /// index of the unit under test in the section (units before it are small well-formed ones)
+    index: usize,
 }
 
 fn abbrev_bytes(rng: &mut Rng, decls: &[Decl], order: &[usize], terminate: bool) -> Vec<u8> {
@@ -829,6 +866,25 @@ fn gen_unit(rng: &mut Rng) -> Option<UnitCase> {
     if forest.is_empty() {
         return None;
     }
+    // a share of the units does not start at section offset 0: one or two small well-formed units
+    // (a few null entries) in front of it, in the same section and byte order
+    let mut lead: Vec<u8> = Vec::new();
+    let mut headers: Vec<String> = Vec::new();
+    if rng.chance(2, 5) {
+        for _ in 0..rng.range(1, 2) {
+            let lc = Cfg { big: cfg.big, addr: *rng.pick(&[1u8, 2, 4, 8]), f64: rng.chance(1, 3), ver: if sect == "types" { rng.range(2, 4) as u16 } else { rng.range(2, 5) as u16 } };
+            let lut = if lc.ver == 5 { *rng.pick(&[1u8, 3, 4, 5]) } else if sect == "types" { 2 } else { 1 };
+            let body = vec![0u8; rng.below(4) as usize];
+            let (hb, text) = header_bytes(rng, &lc, sect, lut, 0, body.len(), lead.len());
+            lead.extend(hb);
+            lead.extend(body);
+            headers.push(text);
+        }
+    }
+    let unit_off = lead.len();
+    // DW_FORM_ref_addr siblings hold what a producer writes (the section offset) or, wrongly but in
+    // bounds, the unit-relative number; either way the fast path has to leave them alone
+    let ref_addr_section_relative = rng.chance(2, 3);
     // the header size does not depend on the entries; lay the entries out behind it
     let (h0, _) = header_bytes(rng, &cfg, sect, ut, 0, 0, 0);
     let base = h0.len();
@@ -845,8 +901,8 @@ fn gen_unit(rng: &mut Rng) -> Option<UnitCase> {
     }
     // patch the sibling attributes: the offset just behind the entry's subtree
     for &(pos, form, ix) in &l.patches {
-        let v = l.ends[ix] as u64;
-        let n = sib_size(form);
+        let v = l.ends[ix] as u64 + if form == 0x10 && ref_addr_section_relative { unit_off as u64 } else { 0 };
+        let n = sib_size(&cfg, form);
         if n < 8 && form != 0x15 && v >= 1u64 << (8 * n) {
             return None; // does not fit DW_FORM_ref1/ref2: draw another case
         }
@@ -872,10 +928,13 @@ fn gen_unit(rng: &mut Rng) -> Option<UnitCase> {
     if l.bytes.len() > 600 && !rng.chance(1, 40) {
         return None;
     }
-    let (hb, text) = header_bytes(rng, &cfg, sect, ut, junk.len() as u64, l.bytes.len(), 0);
-    let mut section = hb;
+    let (hb, text) = header_bytes(rng, &cfg, sect, ut, junk.len() as u64, l.bytes.len(), unit_off);
+    let index = headers.len();
+    headers.push(text);
+    let mut section = lead;
+    section.extend(hb);
     section.extend(&l.bytes);
-    Some(UnitCase { cfg, sect, abbrev, section, items: l.items, header: text })
+    Some(UnitCase { cfg, sect, abbrev, section, items: l.items, headers, index })
 }
 
 
@@ -1101,9 +1160,11 @@ pub fn gen(ctx: &Ctx, emit: &mut dyn FnMut(String)) {
         let ah = hex(&u.abbrev);
         let exp = exp_tok(&items_s(&u.items), &sh);
         let e = es(&u.cfg);
-        emit(format!("die-hdr {e} {} {sh} {}", u.sect, exp_tok(&format!("{}~ok", u.header), &sh)));
+        emit(format!("die-hdr {e} {} {sh} {}", u.sect, exp_tok(&format!("{}~ok", u.headers.join(";")), &sh)));
+        // `info@k`: the unit under test is the k-th unit of the section
+        let usel = if u.index == 0 { u.sect.to_string() } else { format!("{}@{}", u.sect, u.index) };
         for st in STYLES {
-            emit(format!("die-nav {st} {e} {} {ah} {sh} - {exp}", u.sect));
+            emit(format!("die-nav {st} {e} {} {ah} {sh} - {exp}", usel));
         }
         // every entry offset as a start position (all of them for small units, a sample otherwise)
         let offs: Vec<usize> = u.items.iter().map(|i| i.0).collect();
@@ -1113,7 +1174,7 @@ pub fn gen(ctx: &Ctx, emit: &mut dyn FnMut(String)) {
         for &o in &sample {
             let st = if all && offs.len() <= 12 { STYLES.to_vec() } else { vec![*rng.pick(STYLES), *rng.pick(STYLES)] };
             for s in st {
-                emit(format!("die-nav {s} {e} {} {ah} {sh} {o} {exp}", u.sect));
+                emit(format!("die-nav {s} {e} {} {ah} {sh} {o} {exp}", usel));
             }
         }
         // positioned reads: every entry offset, plus offsets that are not entry starts / out of bounds
@@ -1124,7 +1185,7 @@ pub fn gen(ctx: &Ctx, emit: &mut dyn FnMut(String)) {
         at.push(offs[0].saturating_sub(1));
         at.push(rng.below(u.section.len() as u64 + 4) as usize);
         let at_s: Vec<String> = at.iter().map(|o| o.to_string()).collect();
-        emit(format!("die-at {e} {} {ah} {sh} {} {exp}", u.sect, at_s.join(",")));
+        emit(format!("die-at {e} {} {ah} {sh} {} {exp}", usel, at_s.join(",")));
 
         // malformed neighbours (no expectation): truncation, byte mutation, sibling pointers gone wrong
         if made % 3 == 0 {
@@ -1139,10 +1200,10 @@ pub fn gen(ctx: &Ctx, emit: &mut dyn FnMut(String)) {
             }
             let mh = hex(&m);
             let st = *rng.pick(STYLES);
-            emit(format!("die-nav {st} {e} {} {ah} {mh} -", u.sect));
+            emit(format!("die-nav {st} {e} {} {ah} {mh} -", usel));
             emit(format!("die-hdr {e} {} {mh}", u.sect));
             if rng.chance(1, 2) {
-                emit(format!("die-at {e} {} {ah} {mh} {}", u.sect, at_s.join(",")));
+                emit(format!("die-at {e} {} {ah} {mh} {}", usel, at_s.join(",")));
             }
         }
         if made % 5 == 0 {
@@ -1156,7 +1217,7 @@ pub fn gen(ctx: &Ctx, emit: &mut dyn FnMut(String)) {
                 }
             }
             let st = *rng.pick(STYLES);
-            emit(format!("die-nav {st} {e} {} {} {sh} -", u.sect, hex(&m)));
+            emit(format!("die-nav {st} {e} {} {} {sh} -", usel, hex(&m)));
         }
     }
 
